@@ -85,7 +85,10 @@ impl Sys {
         }
     }
     /// all observers; returns the list of divergences from the model
-    fn observe(&self, t: &TextArchive, m: &TextModel) -> Vec<String> {
+    /// `pristine` = no mutating call has been made since `new` / `from_bytes`.
+    /// Dirty flag, as far as the statement fixes it: clear on a pristine archive, set once any
+    /// set_message has been made; after only deletes / set_title calls it is not constrained.
+    fn observe(&self, t: &TextArchive, m: &TextModel, pristine: bool) -> Vec<String> {
         let mut d = Vec::new();
         let entries: Vec<(String, String)> = t.get_entries().iter().map(|(k, v)| (k.clone(), v.clone())).collect();
         if entries != m.entries {
@@ -94,8 +97,11 @@ impl Sys {
         if t.get_title() != m.title {
             d.push(format!("title {:?} != model {:?}", t.get_title(), m.title));
         }
-        if t.is_dirty() != m.dirty {
-            d.push(format!("dirty {} != model {}", t.is_dirty(), m.dirty));
+        if m.dirty && !t.is_dirty() {
+            d.push("dirty false != model true (a set_message has been made)".to_string());
+        }
+        if pristine && t.is_dirty() {
+            d.push("dirty true != model false (new / parsed archive, nothing called yet)".to_string());
         }
         for k in self.keys.iter().chain(["zz"].iter()) {
             if t.has_message(k) != m.has_message(k) {
@@ -177,7 +183,7 @@ impl System for Sys {
             let _ = t.is_dirty();
             let _ = t.get_entries().len();
             Sys::apply(&mut t, op);
-            let mut d = self.observe(&t, &model);
+            let mut d = self.observe(&t, &model, false);
             // storing a looked-up message back changes nothing (but the dirty flag)
             for k in &self.keys {
                 if let Some(g) = t.get_message(k) {
@@ -274,7 +280,7 @@ impl stateright::Model for SrModel {
             t.set_message(k, &ref_text::escape(v));
         }
         Sys::apply(&mut t, &op);
-        let diverged = !self.sys.observe(&t, &model).is_empty();
+        let diverged = !self.sys.observe(&t, &model, false).is_empty();
         Some(SrState { model, diverged })
     }
     fn properties(&self) -> Vec<stateright::Property<Self>> {
@@ -325,7 +331,7 @@ fn explore(ctx: &Ctx) -> Outcome {
         // initial states must already agree with the model (clean, empty / parsed content)
         for (i, m) in [(0usize, TextModel::new()), (1usize, parsed_seed_model())] {
             let t = sys.fresh(i);
-            let d = sys.observe(&t, &m);
+            let d = sys.observe(&t, &m, true);
             if !d.is_empty() {
                 o.violate(format!("init:{}", i), format!("[{}] initial state {} differs from the model: {}", name, i, d.join("; ")), json!({"system": name, "history": []}));
             }
@@ -374,7 +380,7 @@ fn replay(ctx: &Ctx, case: &Value) -> Vec<Violation> {
         for init in 0..2 {
             let mut st = (St { init, model: if init == 0 { TextModel::new() } else { parsed_seed_model() } }, Arc::new(vec![]));
             if hist.is_empty() {
-                let d = sys.observe(&sys.fresh(init), &st.0.model);
+                let d = sys.observe(&sys.fresh(init), &st.0.model, true);
                 if !d.is_empty() {
                     out.push(Violation { sig: format!("init:{}", init), summary: d.join("; "), case: case.clone() });
                 }
